@@ -75,24 +75,8 @@ def canon_expr(e):
 def table_from_code(chk):
     eq = M.py(EQ)
     fn = M.find_func(eq, 'precomputed_symbols')
-    tab = {}
-    for a in ast.walk(fn):
-        if isinstance(a, ast.Assign) and isinstance(a.targets[0], ast.Attribute) and U(a.targets[0].value) == 'c' \
-                and isinstance(a.value, ast.Call) and M.call_name(a.value) == 'BasicCodeBlock':
-            key = a.targets[0].attr
-            code = None
-            ctx = {}
-            for k in a.value.keywords:
-                if k.arg == 'code':
-                    v = k.value
-                    if isinstance(v, ast.Call) and M.call_name(v) == 'dedent':
-                        v = v.args[0]
-                    code = M.const_str(v)
-                else:
-                    ctx[k.arg] = k.value
-            if code is None:
-                raise AnalysisError('code of precomputed symbol %s is not a string literal' % key)
-            tab[key] = (code, ctx, a)
+    # the table is what precomputed_symbols() builds (interpreted): however the code strings are put together
+    tab = EM.precomputed_table(EQ)
     return fn, tab
 
 
